@@ -49,6 +49,7 @@ func (o *Obligation) Query(withModel bool) string {
 }
 
 type loopInfo struct {
+	headState *State
 	header  *ssa.BasicBlock
 	ordinal int
 	body    map[int]bool
@@ -82,6 +83,7 @@ type frame struct {
 	freeVars    []Val
 	rangeOf     map[*ssa.Range]Val
 	locals      map[*ssa.Alloc]bool
+	own         bool // inlined anonymous closure of the function under verification: its obligations count
 }
 
 type FnVC struct {
@@ -108,6 +110,9 @@ type FnVC struct {
 	freshRefs map[string]bool
 	inTypeInv bool
 	idxTerms  []Term
+	seenFormats map[string]bool
+	conFormats  map[string]bool
+	extraFormats map[string]bool
 	unsupp    string
 }
 
@@ -197,6 +202,12 @@ func (v *FnVC) Build() (err error) {
 		}
 	}
 	v.runFrame(fr, st, tTrue)
+	// vacuity guards: every return of a contracted function must be reachable under the collected assumptions
+	if v.con != nil && (len(v.con.Ensures) > 0 || len(v.con.Iterations) > 0) {
+		for i, r := range fr.rets {
+			v.addObl("COVER-return", fmt.Sprintf("return%d", i), token.NoPos, r.reach, tTrue, nil, "sat")
+		}
+	}
 	// exit merge
 	if len(fr.rets) > 0 {
 		var ins []edgeState
@@ -257,7 +268,7 @@ func (v *FnVC) addObl(kind, text string, pos token.Pos, reach, cond Term, props 
 // safe adds a safety obligation and then assumes it.
 func (v *FnVC) safe(fr *frame, kind string, ins ssa.Instruction, cond Term) {
 	reach := fr.reach[fr.curBlock.Index]
-	if fr.top && cond.S != "true" {
+	if (fr.top || fr.own) && cond.S != "true" {
 		txt := v.exprTextFor(kind, ins)
 		v.addObl("SAFE-"+kind, txt, ins.Pos(), reach, cond, nil, "")
 	}
@@ -588,9 +599,11 @@ func (v *FnVC) loadLoc(st *State, l Loc, guard Term) Val {
 		fam := prefix + sufs[i]
 		if two {
 			a := v.he.get(st, fam, arr2Sort(so))
+			v.linkFresh(a, l.Base, arrSort(so), 0)
 			ts[i] = Select(Select(a, l.Base, arrSort(so)), l.Idx, so)
 		} else {
 			a := v.he.get(st, fam, arrSort(so))
+			v.linkFresh(a, l.Base, so, 0)
 			ts[i] = Select(a, l.Base, so)
 		}
 		ts[i] = v.sc.Define("ld", ts[i])
@@ -863,6 +876,7 @@ func (v *FnVC) loopMods(fr *frame, li *loopInfo) *ModSet {
 	}
 	for k, s := range tmp {
 		ms.add(k, s)
+		ms.markNonFresh(k)
 	}
 	return ms
 }
@@ -885,6 +899,7 @@ func (v *FnVC) callMods(ci ssa.CallInstruction) *ModSet {
 		}
 		for k, s := range tmp {
 			ms.add(k, s)
+			ms.markNonFresh(k)
 		}
 		return ms
 	}
@@ -907,6 +922,7 @@ func (v *FnVC) callMods(ci ssa.CallInstruction) *ModSet {
 				elemStoreFams(sl.Elem(), tmp)
 				for k, so := range tmp {
 					ms.add(k, so)
+					ms.markNonFresh(k)
 				}
 				targets, ok := funcArgTargets(c, ci.Parent(), v.w)
 				if !ok {
@@ -978,6 +994,7 @@ func (v *FnVC) assignFams(con *Contract, ms *ModSet) {
 			for f, s := range full.Fams {
 				if famIsUnder(f, a) {
 					ms.add(f, s)
+					ms.markNonFresh(f)
 					matched = true
 				}
 			}
@@ -986,6 +1003,7 @@ func (v *FnVC) assignFams(con *Contract, ms *ModSet) {
 			for f, s := range v.he.sorts {
 				if famIsUnder(f, a) {
 					ms.add(f, s)
+					ms.markNonFresh(f)
 				}
 			}
 		}
@@ -1002,9 +1020,39 @@ func (v *FnVC) applyMods(st *State, ms *ModSet) {
 		}
 		sort.Strings(names)
 		for _, f := range names {
-			v.he.havocFam(st, f, ms.Fams[f])
+			if ms.NonFresh[f] {
+				v.he.havocFam(st, f, ms.Fams[f])
+			} else {
+				v.he.havocFamFresh(st, f, ms.Fams[f], st.allocPtr)
+			}
 		}
 	}
+}
+
+// linkFresh: a read of cell `idx` from a version produced by a fresh-only havoc equals the read from the
+// previous version when the object existed before the havoc.
+func (v *FnVC) linkFresh(arr Term, idx Term, inner Sort, depth int) {
+	if depth > 6 {
+		return
+	}
+	if ps, ok := v.he.parents[arr.S]; ok {
+		// a version built by store / ite from other versions: follow them (the solver relates the reads)
+		for _, p := range ps {
+			v.linkFresh(p, idx, inner, depth+1)
+		}
+		return
+	}
+	lk, ok := v.he.links[arr.S]
+	if !ok {
+		return
+	}
+	key := "lf:" + arr.S + "|" + idx.S
+	if v.ufs[key] {
+		return
+	}
+	v.ufs[key] = true
+	v.sc.Assert(Implies(And(Lt(tZero, idx), Le(idx, lk.bound)), Eq(Select(arr, idx, inner), Select(lk.parent, idx, inner))))
+	v.linkFresh(lk.parent, idx, inner, depth+1)
 }
 
 func (v *FnVC) bumpAlloc(st *State, guard Term) {
@@ -1212,6 +1260,27 @@ func (v *FnVC) enterLoop(fr *frame, li *loopInfo, b *ssa.BasicBlock, st *State, 
 			}
 		}
 	}
+	{
+		fm := map[string]bool{}
+		top := false
+		for _, bb := range fr.fn.Blocks {
+			if !li.body[bb.Index] {
+				continue
+			}
+			for _, ins := range bb.Instrs {
+				if ci, ok := ins.(ssa.CallInstruction); ok {
+					f2, t2 := v.callMayEmit(ci)
+					if t2 {
+						top = true
+					}
+					for k := range f2 {
+						fm[k] = true
+					}
+				}
+			}
+		}
+		v.havocEmits(st, fm, top)
+	}
 	ov2 := map[string]Val{}
 	for _, phi := range phis {
 		if _, isPtr := pre[phi].(PtrV); isPtr {
@@ -1223,6 +1292,7 @@ func (v *FnVC) enterLoop(fr *frame, li *loopInfo, b *ssa.BasicBlock, st *State, 
 			ov2[phi.Comment] = nv
 		}
 	}
+	li.headState = st.clone()
 	// 4. assume invariants (user + auto)
 	for _, c := range invs {
 		env := &specEnv{v: v, fr: fr, st: st, old: fr.entry, over: ov2}
@@ -1422,6 +1492,14 @@ func abs64(x int64) int64 {
 func (v *FnVC) backEdge(fr *frame, li *loopInfo, from *ssa.BasicBlock, st *State) {
 	h := li.header
 	ec := fr.edge[[2]int{from.Index, h.Index}]
+	if v.con != nil && fr.top && li.headState != nil {
+		for _, c := range v.con.Iterations[li.ordinal] {
+			env := &specEnv{v: v, fr: fr, st: st, old: li.headState, loop: li}
+			t := env.evalBool(c.Expr)
+			o := v.addObl("ITER", fmt.Sprintf("loop%d:%s", li.ordinal, clauseName(c)), from.Instrs[len(from.Instrs)-1].Pos(), ec, t, c.Props, "")
+			o.Clause = c
+		}
+	}
 	invs := v.loopInvariants(fr, li)
 	if len(invs) == 0 {
 		return
@@ -1526,4 +1604,128 @@ func (v *FnVC) instTerms() []Term {
 		ts = ts[len(ts)-6:]
 	}
 	return ts
+}
+
+// callMayEmit: formats a call instruction may emit.
+func (v *FnVC) callMayEmit(ci ssa.CallInstruction) (map[string]bool, bool) {
+	c := ci.Common()
+	out := map[string]bool{}
+	if _, ok := c.Value.(*ssa.Builtin); ok {
+		return out, false
+	}
+	if sc := c.StaticCallee(); sc != nil {
+		switch sc.String() {
+		case "fmt.Fprintf", "fmt.Fprintln", "fmt.Fprint":
+			// own emission: computed like in computeEmits through a tiny wrapper set
+		}
+		if !v.w.InModule(sc) {
+			// direct library writes
+			tmp := &ModInfo{w: v.w}
+			_ = tmp
+			switch sc.String() {
+			case "fmt.Fprintf":
+				if k, ok := c.Args[1].(*ssa.Const); ok && k.Value != nil {
+					out[constant.StringVal(k.Value)] = true
+				} else {
+					out[dynFormat] = true
+				}
+				return out, false
+			case "fmt.Fprintln", "fmt.Fprint":
+				out[dynFormat] = true
+				srcs, ok := varargSources(c.Args[1])
+				if ok && len(srcs) == 1 {
+					o := srcs[0]
+					if m, isMI := o.(*ssa.MakeInterface); isMI {
+						o = m.X
+					}
+					if k, ok := o.(*ssa.Const); ok && k.Value != nil && k.Value.Kind() == constant.String {
+						lit := constant.StringVal(k.Value)
+						if sc.String() == "fmt.Fprintln" {
+							lit += "\n"
+						}
+						out[lit] = true
+					}
+				}
+				return out, false
+			}
+			return out, false
+		}
+		if strings.Contains(sc.String(), "formatting.IndentedWriter)") {
+			// emission primitives
+			switch {
+			case strings.HasSuffix(sc.String(), ").WriteString"), strings.HasSuffix(sc.String(), ").WriteStringln"):
+				if k, ok := c.Args[1].(*ssa.Const); ok && k.Value != nil {
+					lit := constant.StringVal(k.Value)
+					if strings.HasSuffix(sc.String(), "ln") {
+						lit += "\n"
+					}
+					out[lit] = true
+				} else {
+					out[dynFormat] = true
+				}
+				return out, false
+			case strings.HasSuffix(sc.String(), ").Indented"):
+				out["<indent>"] = true
+				out["<dedent>"] = true
+				targets, ok := funcArgTargets(c, ci.Parent(), v.w)
+				top := !ok
+				for _, t := range targets {
+					f2, t2 := v.w.mods.MayEmit(t)
+					if t2 {
+						top = true
+					}
+					for k := range f2 {
+						out[k] = true
+					}
+				}
+				return out, top
+			case strings.HasSuffix(sc.String(), ").Write"):
+				return out, true
+			default:
+				return out, false
+			}
+		}
+		fs, top := v.w.mods.MayEmit(sc)
+		for k := range fs {
+			out[k] = true
+		}
+		if v.w.IsParametric(sc) || strings.HasSuffix(sc.String(), "IndentedWriter).Indented") {
+			targets, ok := funcArgTargets(c, ci.Parent(), v.w)
+			if !ok {
+				top = true
+			}
+			for _, t := range targets {
+				f2, t2 := v.w.mods.MayEmit(t)
+				if t2 {
+					top = true
+				}
+				for k := range f2 {
+					out[k] = true
+				}
+			}
+		}
+		return out, top
+	}
+	// dynamic call: union over CHA targets
+	n := v.w.CG.Nodes[ci.Parent()]
+	top := false
+	found := false
+	if n != nil {
+		for _, e := range n.Out {
+			if e.Site == ci {
+				found = true
+				fs, t2 := v.w.mods.MayEmit(e.Callee.Func)
+				if t2 {
+					top = true
+				}
+				for k := range fs {
+					out[k] = true
+				}
+			}
+		}
+	}
+	if !found && !c.IsInvoke() {
+		top = true
+	}
+	return out, top
 }
